@@ -53,7 +53,7 @@ def finalInfos (exprange : Bool) (c : CmdC) : Option (List Item) :=
       pure [Item.line 302 (bstr "on:      " ++ on), Item.line 302 (bstr "off:     " ++ off), Item.line 302 (bstr "unknown: " ++ unk)]
   | .temp => do
     let lines := entries.flatMap fun a => match a.val with
-      | some v => [Item.line 303 (ofChars a.node ++ bstr ": " ++ v)]
+      | some v => [Item.line 303 (ofChars a.node ++ bstr ": " ++ firstLine v)]
       | none => []
     let missing := (entries.filter (·.val.isNone)).map (·.node)
     let tail ← if missing.isEmpty then some [] else (sortedRanged missing).map fun r => [Item.line 303 (r ++ bstr ": unknown")]
@@ -91,10 +91,10 @@ theorem statusX_eq (entries : List ArgC) :
   | cons a r ih => rw [List.flatMap_cons, List.map_cons, ih]; rfl
 
 def tempBytes (a : ArgC) : Bytes := match a.val with
-  | some v => bstr "303 " ++ ofChars a.node ++ bstr ": " ++ v ++ crlf
+  | some v => bstr "303 " ++ ofChars a.node ++ bstr ": " ++ firstLine v ++ crlf
   | none => []
 def tempItems (a : ArgC) : List Item := match a.val with
-  | some v => [Item.line 303 (ofChars a.node ++ bstr ": " ++ v)]
+  | some v => [Item.line 303 (ofChars a.node ++ bstr ": " ++ firstLine v)]
   | none => []
 theorem tempLine_eq (a : ArgC) : tempBytes a = render (tempItems a) := by
   unfold tempBytes tempItems
@@ -1119,17 +1119,33 @@ theorem actFinish_prompted (w : W) (cid : Nat) (err : ActErr) (name : Bytes) :
     simp [List.getLast?_append]
 
 
-/-! ### the `303` lines of a temperature reply embed captured device text raw (F16) -/
+/-! ### the `303` lines of a temperature reply show captured device text up to its first CR or LF (F16, fixed) -/
+
+theorem mem_takeWhile_holds {α} (p : α → Bool) (l : List α) (b : α) (hb : b ∈ l.takeWhile p) : p b = true := by
+  induction l with
+  | nil => simp at hb
+  | cons x xs ih =>
+    simp only [List.takeWhile_cons] at hb
+    split at hb
+    · rcases List.mem_cons.mp hb with rfl | h
+      · assumption
+      · exact ih h
+    · simp at hb
+
+theorem firstLine_clean (v : Bytes) : cleanText (firstLine v) = true := by
+  unfold cleanText firstLine
+  rw [List.all_eq_true]
+  intro b hb
+  exact mem_takeWhile_holds (fun b => b != 13 && b != 10) v b hb
 
 theorem bstr_colon_clean : cleanText (bstr ": ") = true := by decide +kernel
 theorem bstr_unknown_clean : cleanText (bstr ": unknown") = true := by decide +kernel
 
-/-- the informational lines of a temperature reply are clean protocol lines if the node names, the captured values and the
-    ranged string of the value-less nodes contain no CR/LF -/
+/-- the informational lines of a temperature reply are clean protocol lines if the node names and the ranged string of the
+    value-less nodes contain no CR/LF - whatever the captured values are -/
 theorem finalInfos_temp_clean (ex : Bool) (c : CmdC) (infos : List Item) (hcom : c.com = .temp)
     (h : finalInfos ex c = some infos)
     (hn : ∀ a ∈ entriesOf c, cleanText (ofChars a.node) = true)
-    (hv : ∀ a ∈ entriesOf c, ∀ v, a.val = some v → cleanText v = true)
     (hr : ∀ r, sortedRanged (((entriesOf c).filter (·.val.isNone)).map (·.node)) = some r → cleanText r = true) :
     ∀ i ∈ infos, i.clean = true := by
   unfold finalInfos at h
@@ -1155,7 +1171,7 @@ theorem finalInfos_temp_clean (ex : Bool) (c : CmdC) (infos : List Item) (hcom :
     | none => simp [hval] at hia
     | some v =>
       simp [hval] at hia; subst hia
-      simp only [Item.clean, cleanText_append, hn a ha, hv a ha v hval, bstr_colon_clean, Bool.and_self]
+      simp only [Item.clean, cleanText_append, hn a ha, firstLine_clean v, bstr_colon_clean, Bool.and_self]
   · split at ht
     · cases ht; simp at hi
     · simp only [Option.map_eq_some_iff] at ht
@@ -1168,9 +1184,9 @@ def f16Cmd : CmdC :=
   { com := .temp, names := [['n']], pending := 1, error := false,
     args := [{ node := ['n'], state := 0, result := 0, val := some (bstr "1\r\n102 x") }] }
 
-/-- F16: the single reply is read by the client as a `303` line, a forged terminal `102` line, and the real `103` -/
-theorem finalReply_forged :
-    finalReply false f16Cmd = some (render [Item.line 303 (bstr "n: 1"), Item.line 102 (bstr "x"), Item.line 103 (bstr "Query complete")]) := by
+/-- F16 (fixed): the reply is one `303` line showing the value up to its line end, and the real terminal line -/
+theorem finalReply_not_forged :
+    finalReply false f16Cmd = some (render [Item.line 303 (bstr "n: 1"), Item.line 103 (bstr "Query complete")]) := by
   decide +kernel
 
 
